@@ -93,3 +93,24 @@ def _templates_nonempty(ctx: Ctx):
         if not placeholders(tpl):
             return False, f"sid template '{t}' has no placeholder"
     return True, "every sid template has a placeholder"
+
+
+@cond("mapping_idempotent")
+def _mapping_idempotent(ctx: Ctx):
+    """R-MAPIDEM: in every path configuration each mapping's keys and values are disjoint, so applying the
+    path -> sid mapping twice is the identity (the mapped value is never itself a key)."""
+    n = 0
+    for first in list(ctx.conf.path_configs)[:1]:
+        for name, env in ctx.conf.fs_envs(first).items():
+            pm = ctx.conf.need(env, "path_mapping", dict, f"in path configuration {name}")
+            for k, mapping in pm.items():
+                if not isinstance(mapping, dict):
+                    return False, f"{name}: path_mapping[{k!r}] is not a table"
+                n += 1
+                common = set(mapping.keys()) & set(mapping.values())
+                if common:
+                    return False, f"{name}: path_mapping[{k!r}] maps onto its own keys {sorted(common)}"
+    ok2, d2 = holds(ctx, "extrakeys_empty")
+    if not ok2:
+        return False, d2
+    return n > 0, f"{n} mappings with disjoint keys and values; no extra-key mapping"
